@@ -290,7 +290,9 @@ func (w *world) apply(ws []string) bool {
 			go func() { _, _ = pw.Write(body[:len(body)/2]) }()
 			w.nslow++
 			s.Do(stack.CallSpec{Actor: "rt", What: fmt.Sprintf("slowresponse#%d", w.nslow), Method: "POST", Path: rtAPI + "/runtime/invocation/" + id + "/response",
-				Headers: map[string]string{"Content-Type": "application/octet-stream"}, BodyReader: pr, Proc: p})
+				// the upload is not tied to the life of the runtime process: a sender that outlives it (a forked
+				// helper, bytes still in flight) is what makes a submission arrive after the reset
+				Headers: map[string]string{"Content-Type": "application/octet-stream"}, BodyReader: pr, Proc: nil})
 		case "finish": // complete the oldest slow upload
 			if len(w.slow) == 0 {
 				return false
